@@ -32,6 +32,6 @@ def run(ctx):
     ctx.rule = ("one execution = one Server lifetime with 3-8 connections from 2 addresses (+ non-IP peers) under a "
                 "random client script each; all are non-trivial (concurrent arrivals against limits <= 3)")
     ctx.assumptions = ["model constants: Concurrency 2, MaxConnsPerIP 1/2, 2 addresses + a non-IP peer, %s connections" % ("3" if ctx.quick else "4"),
-                       "one Serve listener or ServeConn only per Server (mixing entry points shares no admission test)",
+                       "one Serve listener or ServeConn only per Server, as the Server.Concurrency field comment requires ('Concurrency only works if you either call Serve once, or only ServeConn multiple times'); TLC confirms on the design that mixing entry points exceeds the bound",
                        "no idle-worker retirement during an execution (MaxIdleWorkerDuration = 1h; C13 covers it)",
                        "real-code schedules are sampled (seeded scripts + jitter at hook points), not exhaustive"]
